@@ -46,6 +46,17 @@ func TestVerifC01(t *testing.T) {
 					{LHS: 4, RHS: []Sym{1, Marker(1)}}},
 				inputs: []Input{{Nonterminal: 4, Eoi: true}, {Nonterminal: 5, Eoi: false}}}
 		}
+		if i == 1 {
+			// directed: a left-recursive eoi input whose accepting state needs lookahead (A: A B c | a ; B: ),
+			// so the shift of EOI into the last state of the automaton comes out of a non-LR(0) state -
+			// the one entry a wrong "undefined" sentinel of defaultReduce overwrites (seeded change C01-r14m1)
+			hg = &hGrammar{nt: 4, nn: 2,
+				rules: []Rule{
+					{LHS: 4, RHS: []Sym{4, 5, 3}},
+					{LHS: 4, RHS: []Sym{1}},
+					{LHS: 5, RHS: nil}},
+				inputs: []Input{{Nonterminal: 4, Eoi: true}}}
+		}
 		g := hg.build()
 		first, err, pmsg := hCompile(g, Options{})
 		if pmsg != "" {
